@@ -1,6 +1,7 @@
 (* Bytes.v — byte strings as [list N], byte classes, decimal numerals, hex, UTF-8 validity.
    Models std behaviour the repository relies on (trusted, differential-tested by the harness). *)
-From Coq Require Export List NArith Bool Lia String Ascii.
+From Coq Require Export String Ascii.
+From Coq Require Export List NArith Bool Lia.
 Export ListNotations.
 Open Scope N_scope.
 
@@ -194,3 +195,18 @@ Fixpoint join (sep : bytes) (l : list bytes) : bytes :=
   | [x] => x
   | x :: r => x ++ sep ++ join sep r
   end.
+
+(* ---------- all 256 byte values, for finite sweeps over generated predicates ---------- *)
+
+Definition bytes256 : list N := map N.of_nat (seq 0 256).
+
+Lemma in_bytes256 c : c < 256 -> In c bytes256.
+Proof.
+  intros H. unfold bytes256. apply in_map_iff. exists (N.to_nat c). split; [lia|].
+  apply in_seq. lia.
+Qed.
+
+Lemma sweep (P : N -> bool) : forallb P bytes256 = true -> forall c, c < 256 -> P c = true.
+Proof. intros H c Hc. rewrite forallb_forall in H. apply H. apply in_bytes256. exact Hc. Qed.
+
+Definition wf_bytes (s : bytes) : Prop := Forall (fun c => c < 256) s.
